@@ -187,20 +187,10 @@ theorem startInFlightBody_eq : Nsq.Gen.Codec.startInFlightBody = [
   "if err != nil {",
   "return err",
   "}",
+  -- fix F48 (audit A3, /repo 88fd245): `pushInFlightMessage` inserts into map AND heap in one critical section;
+  -- the pre-F48 body (a separate `c.addToInFlightPQ(msg)` after the hook point) breaks this tie
   "verifPoint(\"chan.inflight.afterMapPush\")",
-  "c.addToInFlightPQ(msg)",
-  "return nil"] ∨ Nsq.Gen.Codec.startInFlightBody = [
-  -- fix F48 (audit A3): `pushInFlightMessage` inserts into map AND heap in one critical section
-  "now := time.Now()",
-  "msg.clientID = clientID",
-  "msg.deliveryTS = now",
-  "msg.pri = now.Add(timeout).UnixNano()",
-  "err := c.pushInFlightMessage(msg)",
-  "if err != nil {",
-  "return err",
-  "}",
-  "verifPoint(\"chan.inflight.afterMapPush\")",
-  "return nil"] := by decide
+  "return nil"] := by rfl
 
 /-- `Channel.StartDeferredTimeout` = `Model.Timing.startDeferred` -/
 theorem startDeferredBody_eq : Nsq.Gen.Codec.startDeferredBody = [
